@@ -120,7 +120,7 @@ PROPS["C09"] = dict(
     tests=[REGRESS(), T("TestHedge", (8, 1200), (16, 20000)), T("TestHedgeRounds", (4, 400), (8, 6000))],
     replay_reps=300,
     require_classes=["final-path=true", "overlapped=true"],
-    rule="rapid-generated hedged executions: maxHedges 0..4, a generated delay per hedge from {0, 0.2, 1, 3, 5 ms, 1 h}, cancel conditions {default, CancelOnResult, CancelOnErrors, CancelIf}, an outcome per attempt (assigned by order of entry), placements {alone, inside retry, inside a never-firing timeout, inside a fallback}, sync/async; gated mode: every attempt parks on a harness channel and is released in a generated permutation (exact step oracle); auto mode: attempts last a generated 0..8 ms or until cancelled and race with the hedge timers (race-agnostic log oracle); non-trivial = at least 2 attempts overlapped and (the winner was not the first attempt or the all-finished path delivered the result); distinct = the scenario",
+    rule="one scenario in four goes on using the builder (more hedges, another listener) after the policy under test was built; placements include a Timeout between the hedge policy and the function; rapid-generated hedged executions: maxHedges 0..4, a generated delay per hedge from {0, 0.2, 1, 3, 5 ms, 1 h}, cancel conditions {default, CancelOnResult, CancelOnErrors, CancelIf}, an outcome per attempt (assigned by order of entry), placements {alone, inside retry, inside a never-firing timeout, inside a fallback}, sync/async; gated mode: every attempt parks on a harness channel and is released in a generated permutation (exact step oracle); auto mode: attempts last a generated 0..8 ms or until cancelled and race with the hedge timers (race-agnostic log oracle); non-trivial = at least 2 attempts overlapped and (the winner was not the first attempt or the all-finished path delivered the result); distinct = the scenario",
     assumptions=["attempts are identified by order of entry; spacing is a lower bound on order statistics of the entries and on the OnHedge calls",
                  "a cancel-matching result that loses the hand-off to the final result of the last attempt is accepted when all attempts have finished (DESIGN.md L8)",
                  "timing assertions are lower bounds only; 'does not return' is observed for 0.3 ms, 'returns' is awaited for 30 s"],
@@ -130,7 +130,7 @@ PROPS["C08"] = dict(
     pkg="./props/c08_cancel",
     tests=[REGRESS(), T("TestCancelScenarios", (6, 400), (8, 6000)), T("TestCancelRaceSpin", (8, 40), (8, 800))],
     replay_reps=20,
-    rule="rapid-generated cancellation scenarios run in concurrent batches: 12 composition shapes around a retry or hedge policy (with fallback outside/inside, breaker, a full bulkhead and a rate limiter with 1 h waits, enclosing Timeout), retry delay 0 or 1 h, one cancellation source (context cancel, context deadline, enclosing Timeout, ExecutionResult.Cancel) fired at a generated point (before submission, inside attempt k, inside OnRetryScheduled of retry k, from another goroutine after a generated spin of 0..100 us, after completion), sync and async; plus spin-race batches of 2000 cheap trials aimed at the windows between the steps of a retry iteration; non-trivial = the cancellation took effect strictly between the first function entry and the call's return; distinct = hash of the scenario parameters and the outcome class",
+    rule="context sources may be built with an explicit cause (WithCancelCause / WithDeadlineCause): the reported error stays context.Canceled / DeadlineExceeded; rapid-generated cancellation scenarios run in concurrent batches: 12 composition shapes around a retry or hedge policy (with fallback outside/inside, breaker, a full bulkhead and a rate limiter with 1 h waits, enclosing Timeout), retry delay 0 or 1 h, one cancellation source (context cancel, context deadline, enclosing Timeout, ExecutionResult.Cancel) fired at a generated point (before submission, inside attempt k, inside OnRetryScheduled of retry k, from another goroutine after a generated spin of 0..100 us, after completion), sync and async; plus spin-race batches of 2000 cheap trials aimed at the windows between the steps of a retry iteration; non-trivial = the cancellation took effect strictly between the first function entry and the call's return; distinct = hash of the scenario parameters and the outcome class",
     assumptions=["exactly one cancellation source per execution, as the property's quantifier says",
                  "the marker 'cancellation in effect' is logged after the cancelling call returned (or later), so 'at most one attempt afterwards' is a sound bound",
                  "promptness is asserted only against 1 h waits, with a 30 s bound",
@@ -142,7 +142,7 @@ PROPS["C06"] = dict(
     tests=[REGRESS(), T("TestBulkhead", (8, 400), (16, 8000))],
     replay_reps=200,
     require_classes=["waited=true", "refused=true", "cancelled=true"],
-    rule="maxConcurrency 0..8 (0: a bulkhead that admits nothing); executions may carry a context deadline of 1 us .. 2 ms that expires while they wait for or hold a permit; (final phase, in half of the scenarios) with every permit held, 1..4 callers of the standalone AcquirePermit / AcquirePermitWithMaxWait are cancelled while they wait: each returns the context error without a permit, and exactly maxConcurrency permits are available afterwards. rapid-generated bulkhead scenarios: maxConcurrency 1..8, max wait in {0, 1 ms, 50 ms, 1 h}, 0..max permits taken through the standalone API, 2..24 (thorough: 64) concurrent executions (sync/async; bare or with the bulkhead inside retry / an always-firing timeout / a real hedge / a fallback, or outside a retry) in three roles (holders parked on a harness gate inside the function, burst executions, waiters submitted against a full bulkhead), and a generated order of harness actions (open a gate, cancel an execution's context while it waits for or holds a permit, take/release standalone permits); non-trivial = more executions than permits AND at least one waited for a permit, was refused, or was cancelled; distinct = the scenario",
+    rule="executions cancelled by CancelMe may run under a hand-written context.Context (own Done/Err, values delegated to a standard parent that is never cancelled); maxConcurrency 0..8 (0: a bulkhead that admits nothing); executions may carry a context deadline of 1 us .. 2 ms that expires while they wait for or hold a permit; (final phase, in half of the scenarios) with every permit held, 1..4 callers of the standalone AcquirePermit / AcquirePermitWithMaxWait are cancelled while they wait: each returns the context error without a permit, and exactly maxConcurrency permits are available afterwards. rapid-generated bulkhead scenarios: maxConcurrency 1..8, max wait in {0, 1 ms, 50 ms, 1 h}, 0..max permits taken through the standalone API, 2..24 (thorough: 64) concurrent executions (sync/async; bare or with the bulkhead inside retry / an always-firing timeout / a real hedge / a fallback, or outside a retry) in three roles (holders parked on a harness gate inside the function, burst executions, waiters submitted against a full bulkhead), and a generated order of harness actions (open a gate, cancel an execution's context while it waits for or holds a permit, take/release standalone permits); non-trivial = more executions than permits AND at least one waited for a permit, was refused, or was cancelled; distinct = the scenario",
     assumptions=["the in-flight meter counts function invocations between entry and exit, plus standalone permits counted conservatively, so it never over-estimates what holds a permit",
                  "a bulkhead enclosing a hedge policy is not generated (one permit then covers several attempts by design)",
                  "an execution still unfinished after 30 s is a violation only with evidence (a goroutine blocked in ReleasePermit, or a 1 h waiter stranded after all others finished); otherwise inconclusive"],
@@ -153,7 +153,7 @@ PROPS["C04"] = dict(
     tests=[REGRESS(), T("TestBreakerConcurrent", (8, 500), (16, 8000))],
     replay_reps=200,
     require_classes=["raced-open=true", "raced-trials=true"],
-    rule="the virtual clock starts at 0, 1 or a wall-clock-like reading; one scenario in eight uses a delay near the end of the int64 range (the breaker must stay open while the clock moves on by days); parked trials with identical outcomes may be completed all at once; rapid-generated breaker scenarios on a frozen virtual clock: count / ratio / count-in-period / rate-in-period thresholds with optional success thresholds; phase A: 2..16 (thorough 32) executions race against the closed breaker while some of their failures trip it (any execution submitted after OnOpen was observed must be refused; in half of the scenarios the OnOpen listener is slow and 4 more executions are submitted while it is still running); phase A2: executions (bare / under retry / under an always-firing timeout / under a fallback, sync and async) against the open breaker; phase B: the clock jumps past the delay and up to 2*capacity+2 trials are submitted one by one (model in lock-step) or all at once (racing for permits), ending by result, error, timeout, cancellation or a rejection further in; parked trials are completed in a generated order with the reference breaker in lock-step; finally the free trial permits are probed; non-trivial = the breaker opened while at least 2 executions were in flight, or more than capacity executions raced for trial permits; distinct = the scenario",
+    rule="half-open trials may arrive with a context that is already cancelled (an admitted trial all the same); the virtual clock starts at 0, 1 or a wall-clock-like reading; one scenario in eight uses a delay near the end of the int64 range (the breaker must stay open while the clock moves on by days); parked trials with identical outcomes may be completed all at once; rapid-generated breaker scenarios on a frozen virtual clock: count / ratio / count-in-period / rate-in-period thresholds with optional success thresholds; phase A: 2..16 (thorough 32) executions race against the closed breaker while some of their failures trip it (any execution submitted after OnOpen was observed must be refused; in half of the scenarios the OnOpen listener is slow and 4 more executions are submitted while it is still running); phase A2: executions (bare / under retry / under an always-firing timeout / under a fallback, sync and async) against the open breaker; phase B: the clock jumps past the delay and up to 2*capacity+2 trials are submitted one by one (model in lock-step) or all at once (racing for permits), ending by result, error, timeout, cancellation or a rejection further in; parked trials are completed in a generated order with the reference breaker in lock-step; finally the free trial permits are probed; non-trivial = the breaker opened while at least 2 executions were in flight, or more than capacity executions raced for trial permits; distinct = the scenario",
     assumptions=["virtual clock injected through circuitbreaker.VerifWithClock (build tag verif); phase B starts only when nothing admitted earlier is in flight, as the property's quantifier says",
                  "the OnOpen listener runs under the breaker's lock, so a flag it sets is ordered before every later admission decision"],
 )
@@ -204,7 +204,7 @@ PROPS["C19"] = dict(
     pkg="./props/c19_leaks",
     tests=[REGRESS(), T("TestLeaks", (8, 150), (16, 3000)), T("TestKnownFindingD12", (1, 0), (1, 0))],
     prefer_json_replay=True,
-    rule="rapid-generated scenarios, each repeated 5..40 times in a row: core executions through stacks of {retry with and without backoff delays, firing and never-firing timeouts, real hedging with default and custom cancel conditions, 1 h hedge, fallback, 1 h bulkhead and limiter waits} run sync / async / async without ever reading the result, with functions that last 0..600 us or until cancelled, ended by success, failure, timeout, context cancellation or ExecutionResult.Cancel; HTTP calls through a private transport (retried statuses incl. outages where every attempt gets the same 429/500/503, hedged losers with default and custom cancel conditions whose answers arrive together (server-side barrier), retries rejected by an inner breaker or rate limiter (also: 5xx, rejected, breaker half-opened again, 200), inner transports whose Body.Close reports an error, request bodies whose rewind fails, merged request/executor contexts, bodies read or not); gRPC interceptor calls with merged contexts; composition scenarios of the C01 generator; after everything returned and idle connections were closed, and while the caller's contexts are still alive, a goroutine dump is polled for up to 30 s: no goroutine may keep a frame of the module or of an HTTP client connection, and the goroutine count may not have grown; non-trivial = the scenario started a policy goroutine or timer (hedge, timeout, async runner, delay, merged context, retried response); distinct = the scenario",
+    rule="rapid-generated scenarios, each repeated 5..40 times in a row: core executions through stacks of {retry with and without backoff delays, firing and never-firing timeouts, real hedging with default and custom cancel conditions, 1 h hedge, fallback, 1 h bulkhead and limiter waits} run sync / async / async without ever reading the result, with functions that last 0..600 us or until cancelled, ended by success, failure, timeout, context cancellation or ExecutionResult.Cancel; HTTP calls through a private transport (retried statuses incl. outages where every attempt gets the same 429/500/503, hedged losers with default and custom cancel conditions whose answers arrive together (server-side barrier), retries rejected by an inner breaker or rate limiter (also: 5xx, rejected, breaker half-opened again, 200), inner transports whose Body.Close reports an error or which hand out responses without a Body, request bodies whose rewind fails, merged request/executor contexts, bodies read or not); gRPC interceptor calls with merged contexts; composition scenarios of the C01 generator; after everything returned and idle connections were closed, and while the caller's contexts are still alive, a goroutine dump is polled for up to 30 s: no goroutine may keep a frame of the module or of an HTTP client connection, and the goroutine count may not have grown; non-trivial = the scenario started a policy goroutine or timer (hedge, timeout, async runner, delay, merged context, retried response); distinct = the scenario",
     assumptions=["a timer that is left armed but whose firing has no observable effect is invisible to this oracle",
                  "the caller owns (and closes) the response it is handed, including the one carried by ExceededError",
                  "scenarios run one after the other within a process, so leftovers are attributable",
